@@ -41,6 +41,9 @@ type Op struct {
 	// Elect (voteResult): term of the election whose request this reply answers; it travels over that
 	// election's reply channel. 0 = not specified (delivered to onVoteResult directly).
 	Elect uint64 `json:"elect,omitempty"`
+	// Inner (snapAround): the operation the state loop performs between the moment the snapshot goroutine has
+	// captured the FSM's state and the moment it writes the snapshot file. The model runs snapRun, then Inner.
+	Inner *Op `json:"inner,omitempty"`
 }
 
 // model renders the op in the shape Driver/Node.lean parses.
@@ -200,6 +203,12 @@ func InstallPointFn() {
 		if name == "value.set" && (len(args) < 2 || args[1] != ".term") {
 			return
 		}
+		if name == "takeSnapshot.captured" {
+			if n := raft.VerifLookup(filepath.Dir(dir)); n != nil {
+				n.VerifSnapGate2()
+			}
+			return
+		}
 		if name == "timeoutNow" {
 			// observation only: the leader designates args[1] as its successor
 			if v, ok := worlds.Load(filepath.Dir(dir)); ok && len(args) >= 2 {
@@ -307,6 +316,18 @@ func TermAt(d *raft.VNode, i uint64) (uint64, bool) { return termAt(d, i) }
 func (w *World) apply(op Op) {
 	n := w.Node
 	switch op.Kind {
+	case "snapAround":
+		parked := n.SnapRunCapture()
+		if n.Panic != "" {
+			return
+		}
+		if op.Inner != nil {
+			w.apply(*op.Inner)
+		}
+		if parked && n.Panic == "" {
+			n.SnapRunFinish()
+		}
+		return
 	case "vote":
 		n.Vote(*op.Vote)
 	case "append":
@@ -408,6 +429,14 @@ func (w *World) Step(op Op) bool {
 			w.St.Crash++
 		}
 		real = map[string]interface{}{"post": harness.ToCanon(post), "crash": crash}
+		if op.Kind == "snapAround" {
+			// what the three runs of the composite answered is not part of the comparison, nor are its crash images
+			pm, _ := real["post"].(map[string]interface{})
+			delete(pm, "replies")
+			delete(pm, "rpcReply")
+			real["crash"] = []interface{}{}
+			w.crashStates = nil
+		}
 	}
 	for _, c := range w.copies {
 		_ = os.RemoveAll(c.dir)
@@ -421,6 +450,18 @@ func (w *World) Step(op Op) bool {
 	matched := false
 	var models []interface{}
 	mop := op.model()
+	var preOp interface{}
+	if op.Kind == "snapAround" {
+		preOp = map[string]interface{}{"kind": "snapRun"}
+		if op.Inner != nil {
+			mop = op.Inner.model()
+			if op.Inner.Kind == "voteResult" && op.Inner.Elect != 0 && op.Inner.Elect != pre.Term {
+				mop["err"] = true
+			}
+		} else {
+			mop, preOp = map[string]interface{}{"kind": "snapRun"}, nil
+		}
+	}
 	staleReply := op.Kind == "voteResult" && op.Elect != 0 && op.Elect != pre.Term
 	if staleReply {
 		// the model: a reply of an election other than the running one is a lost reply (candidate.go
@@ -429,12 +470,23 @@ func (w *World) Step(op Op) bool {
 	}
 	for level := 1; level <= 3 && !matched && !w.Broken; level++ {
 		ans, err := w.D.Ask(map[string]interface{}{"engine": "node", "what": "step", "id": w.St.Steps,
-			"pre": pre, "op": mop, "rollAt": rollAt, "level": level})
+			"pre": pre, "op": mop, "rollAt": rollAt, "level": level, "preOp": preOp})
 		if err != nil {
 			w.record("driver", pre, real, fmt.Sprint(err, ans), op, "driver error", nil)
 			return false
 		}
 		outs, _ := ans["outcomes"].([]interface{})
+		if preOp != nil {
+			// the other linearisation of the composite: the event first, then the model's atomic snapRun (the
+			// implementation captures the FSM state before the event and publishes the snapshot after it; a
+			// correct implementation behaves like one of the two sequential orders)
+			ans2, err2 := w.D.Ask(map[string]interface{}{"engine": "node", "what": "step", "id": w.St.Steps,
+				"pre": pre, "op": mop, "rollAt": rollAt, "level": level, "postOp": preOp})
+			if err2 == nil {
+				o2, _ := ans2["outcomes"].([]interface{})
+				outs = append(outs, o2...)
+			}
+		}
 		models = nil
 		for _, o := range outs {
 			s, _ := o.(string)
@@ -453,6 +505,15 @@ func (w *World) Step(op Op) bool {
 					}
 				}
 				mm = map[string]interface{}{"panic": cls}
+			}
+			if op.Kind == "snapAround" {
+				if pm, ok := mm["post"].(map[string]interface{}); ok {
+					delete(pm, "replies")
+					delete(pm, "rpcReply")
+				}
+				if _, ok := mm["crash"]; ok {
+					mm["crash"] = []interface{}{}
+				}
 			}
 			models = append(models, mm)
 			if harness.Equal(harness.Canon(real), mm) {
